@@ -14,6 +14,13 @@ CLAIMED = {
             "len(enc(args)) for arbitrary argument bytes (incl. CR/LF/NUL/non-UTF-8) and every strict prefix is 'need more'; deserialize(serialize(v)) = v for bounded reply "
             "trees; error replies quoting arbitrary client bytes stay one frame; the real clientCxn inbound-buffer code dispatches two pipelined commands in order for every "
             "cutting of the stream into <= 3 segments and writes cut-independent reply bytes", "5/C01"),
+    "C09": ("bounded symbolic model checking of transaction programs (1..4 steps quick, 5 thorough; each step a symbolic choice among MULTI, EXEC, DISCARD, WATCH, UNWATCH, a "
+            "valid write, a command failing at run time, commands rejected at queue time (unknown name, bad arity) and a blocking pop) through the real dispatcher against the "
+            "multi.c state machine: reply class of every step, queue/normal mode, no effect while queueing (observer connection between steps), one reply per queued command, "
+            "runtime error does not stop the rest, EXECABORT after a queue-time rejection, abort by WATCH, state reset after EXEC/DISCARD", "5/C09"),
+    "C10": ("bounded symbolic model checking of WATCH k; <one command>; MULTI; SET marker; EXEC for every key type of k and a table of 20-30 commands per type (in-place "
+            "writers of every type, replacing writers, rename from/onto, copy onto, expiry changes, flushes, reads, failing writes), issued by the watching or another connection "
+            "before or after MULTI: EXEC aborts iff Redis counts the command as a modification; UNWATCH/DISCARD forget", "5/C10"),
     "C13": ("bounded symbolic model checking of the parser on every byte string up to 5 (quick) / 7 (thorough) bytes and of the length-taking parser routines for every "
             "non-negative declared count: no panic, no allocation by declared size, consumed length inside the buffer (command-level no-panic obligations are part of "
             "the per-family checks C02-C05/C18, whose harnesses run under vCatch with unconstrained int64 arguments)", "5/C13"),
